@@ -677,3 +677,24 @@ mod tests {
         assert_eq!(perfect_power(8650415919381337933_u64), Some((13, 17)));
     }
 }
+
+// Verification hooks (add-only; compiled only with `--cfg yamaquasi_verif`).
+#[cfg(yamaquasi_verif)]
+pub mod verif_hooks {
+    use super::*;
+
+    /// Private fields of `Dividers`: (p, r64, m64, s64, s16, m16).
+    pub fn dividers_fields(d: &Dividers) -> (u32, u32, u64, u16, u16, u32) {
+        (d.p, d.r64, d.m64, d.s64, d.s16, d.m16)
+    }
+    /// The private table of `Inverter`.
+    pub fn inverter_table(inv: &Inverter) -> [u32; 8] {
+        inv.invpow2
+    }
+    pub fn mulmod<T: Num>(a: T, b: T, p: T) -> T {
+        super::mulmod(a, b, p)
+    }
+    pub fn divmod_uint_inplace<const N: usize>(d: &Dividers, digits: &mut [u64; N]) -> u64 {
+        d.divmod_uint_inplace(digits)
+    }
+}
